@@ -40,6 +40,7 @@ type FuncSpec struct {
 	Guards    []*GuardClause // control-flow contracts decided on the CFG (frames back end)
 	Orders    []*OrderClause // "order A before B": no A is reachable once a B has been executed
 	Reads     []*ReadsClause // "reads_fields T except a,b": the function reads every other field of struct T
+	ControlOnly []string     // "control_only T.f, T.g": those fields only ever decide branches, here and in everything reachable in the package
 	Trusted   bool
 	MayPanic  bool
 	NoInline  bool
@@ -148,7 +149,7 @@ func NewSpecFile() *SpecFile {
 }
 
 var clauseKeywords = map[string]bool{"requires": true, "ensures": true, "invariant": true, "decreases": true,
-	"assigns": true, "preserves": true, "guard": true, "order": true, "reads_fields": true, "loop": true, "may_panic": true, "trusted": true, "pure": true, "abstract": true, "axiom": true,
+	"assigns": true, "preserves": true, "guard": true, "order": true, "reads_fields": true, "control_only": true, "loop": true, "may_panic": true, "trusted": true, "pure": true, "abstract": true, "axiom": true,
 	"func": true, "lemma": true, "noinline": true, "opaque": true, "flag": true, "let": true, "may_panic_at": true, "extends": true, "foreach_field": true, "ghost": true, "assert": true}
 
 // ParseSpecFile reads //@ lines from path and adds them to sf.
@@ -360,6 +361,13 @@ func (sf *SpecFile) ParseSpecFile(path string) error {
 					cur.Assigns = append(cur.Assigns, cs...)
 					cur.HasAssign = true
 				}
+			case "control_only":
+				for _, part := range strings.Split(r.text, ",") {
+					if t := strings.TrimSpace(part); t != "" {
+						cur.ControlOnly = append(cur.ControlOnly, t)
+					}
+				}
+				curLoop = nil
 			case "reads_fields":
 				fs := strings.Fields(strings.ReplaceAll(r.text, ",", " "))
 				if len(fs) == 0 {
